@@ -439,8 +439,15 @@ class CdcDesign:
 
 
 class CdcGen:
-    """random multi-domain designs; style: 'inorder' (every unannotated signal is driven before it
-    is read) or 'reversed' (one unannotated signal is read by an earlier item than its driver)"""
+    """random multi-domain designs.
+
+    style 'inorder': every unannotated signal is driven before it is read;
+    style 'reversed': one unannotated signal is read by an earlier item than its driver.
+    Every item is generated in one of three modes:
+      clean   all signals of the item are in one domain (or constants)
+      single  clean, then exactly ONE read position is replaced by a signal of another domain, so
+              that each place where the analyzer must check is exercised by an isolated crossing
+      wild    domains drawn at random (several crossings per item possible)"""
 
     def __init__(self, rng):
         self.rng = rng
@@ -452,8 +459,6 @@ class CdcGen:
         ndom = rng.choice([1, 2, 2, 2, 3, 3])
         doms = DOMS[:ndom]
         self.doms = doms
-        use_unann_in = rng.random() < 0.15
-        # clocks (one per domain), resets for some
         self.clk = {}
         self.rst = {}
         for x in doms:
@@ -461,19 +466,16 @@ class CdcGen:
         for x in doms:
             if rng.random() < 0.5 or len(doms) == 1:
                 self.rst[x] = d.add("rst_%s" % x, x, "rst")
-        if len(doms) == 1 and rng.random() < 0.5:
-            pass
-        # data inputs
         for x in doms:
-            for k in range(rng.choice([1, 2, 2, 3])):
+            for k in range(rng.choice([2, 2, 3])):
                 d.add("i_%s%d" % (x, k), x, "in")
-            if rng.random() < 0.5:
+            if rng.random() < 0.6:
                 d.add("w_%s" % x, x, "win")
-        if use_unann_in:
+        if rng.random() < 0.15:
             d.add("i_u0", None, "in")
             d.tags.add("unannotated-input")
-        self.free = []      # destinations not yet driven
-        self.readable = d.by_kind("in")   # 1-bit readable signals (grows as items drive vars)
+        self.eff = {i: s["dom"] for i, s in enumerate(d.sigs)}   # effective (possibly inferred) domain
+        self.readable = d.by_kind("in")
         self.wide = d.by_kind("win")
         nit = rng.choice([1, 2, 3, 3, 4, 5, 6])
         items = []
@@ -486,64 +488,79 @@ class CdcGen:
         d.items = items
         return d
 
+    # --- pools
+    def pool(self, dom):
+        return [i for i in self.readable if self.eff.get(i) == dom and dom is not None]
+
+    def wpool(self, dom):
+        return [i for i in self.wide if self.d.sigs[i]["dom"] == dom]
+
     # --- destinations
-    def new_dst(self, dom="any", kind=None, allow_unann=True):
+    def new_dst(self, dom="item", kind=None, allow_unann=True):
+        """dom: 'item' = the item's domain (in wild mode sometimes another one)"""
         d, rng = self.d, self.rng
-        if dom == "any":
-            r = rng.random()
-            if allow_unann and r < 0.25:
-                dom = None
-            else:
+        if dom == "item":
+            dom = self.idom
+            if self.mode == "wild" and rng.random() < 0.3:
                 dom = rng.choice(self.doms)
+            if allow_unann and rng.random() < 0.2:
+                dom = None
         kind = kind or rng.choice(["out", "var", "var", "ifm"] if rng.random() < 0.3 else ["out", "var"])
         n = len(d.sigs)
         if kind == "ifm":
             d.need_ifc = True
             i = d.add("bus%d.d" % n, dom, "ifm")
+            d.tags.add("interface-member")
         else:
             pre = {"out": "o", "var": "v", "arr": "oa", "st": "os", "wout": "ow", "let": "l"}[kind]
             i = d.add("%s_%s%d" % (pre, dom or "u", n), dom, kind)
         if dom is None:
             d.tags.add("unannotated-dst-" + kind)
+        self.eff[i] = dom
         return i
 
+    def ddom(self, dst):
+        """domain expressions for this destination are drawn from"""
+        x = self.d.sigs[dst]["dom"]
+        return x if x is not None else self.idom
+
     # --- expressions
-    def leaf(self, bias):
+    def leaf(self, dom):
         rng = self.rng
-        pool = self.readable
-        if bias is not None and rng.random() < 0.7:
-            same = [i for i in pool if self.d.sigs[i]["dom"] == bias]
-            if same:
-                return ("sig", rng.choice(same))
         if rng.random() < 0.12:
             return ("const", rng.choice(["1'b0", "1'b1"]))
-        return ("sig", rng.choice(pool))
+        if self.mode == "wild" and rng.random() < 0.3:
+            return ("sig", rng.choice(self.readable))
+        p = self.pool(dom)
+        if p:
+            return ("sig", rng.choice(p))
+        return ("const", "1'b0")
 
-    def expr(self, depth, bias):
+    def expr(self, depth, dom):
         rng, d = self.rng, self.d
         if depth <= 0 or rng.random() < 0.3:
-            return self.leaf(bias)
+            return self.leaf(dom)
         r = rng.random()
         if r < 0.12:
             d.tags.add("unary")
-            return ("un", rng.choice(["~", "!", "-"]), self.expr(depth - 1, bias))
+            return ("un", rng.choice(["~", "!", "-"]), self.expr(depth - 1, dom))
         if r < 0.20:
             d.tags.add("sysfn")
-            return ("sys", rng.choice(["$signed", "$unsigned"]), self.expr(depth - 1, bias))
+            return ("sys", rng.choice(["$signed", "$unsigned"]), self.expr(depth - 1, dom))
         if r < 0.42:
             d.tags.add("binary")
-            return ("bin", rng.choice(["&", "|", "^", "==", "&&", "+"]), self.expr(depth - 1, bias), self.expr(depth - 1, bias))
+            return ("bin", rng.choice(["&", "|", "^", "==", "&&", "+"]), self.expr(depth - 1, dom), self.expr(depth - 1, dom))
         if r < 0.54:
             d.tags.add("ternary")
-            c = self.expr(depth - 1, bias)
+            c = self.expr(depth - 1, dom)
             if rng.random() < 0.3:
                 c = ("const", "1'b1")
                 d.tags.add("ternary-const-cond")
-            return ("tern", c, self.expr(depth - 1, bias), self.expr(depth - 1, bias))
+            return ("tern", c, self.expr(depth - 1, dom), self.expr(depth - 1, dom))
         if r < 0.66:
             d.tags.add("concat")
             n = rng.choice([2, 2, 3])
-            es = [self.expr(depth - 1, bias) for _ in range(n)]
+            es = [self.expr(depth - 1, dom) for _ in range(n)]
             if rng.random() < 0.4:
                 es[rng.randrange(n)] = ("const", "1'b0")
                 d.tags.add("concat-const")
@@ -552,122 +569,95 @@ class CdcGen:
             d.tags.add("call")
             n = rng.choice([1, 2, 2, 3])
             d.nfun = max(d.nfun, n)
-            return ("call", [self.expr(depth - 1, bias) for _ in range(n)])
-        if r < 0.90 and self.wide:
-            d.tags.add("index")
-            ws = self.wide
-            if bias is not None and rng.random() < 0.6:
-                ws = [i for i in ws if d.sigs[i]["dom"] == bias] or ws
-            return ("idx", rng.choice(ws), self.expr(depth - 1, bias))
+            return ("call", [self.expr(depth - 1, dom) for _ in range(n)])
+        if r < 0.90:
+            ws = self.wpool(dom)
+            if self.mode == "wild" and rng.random() < 0.3:
+                ws = self.wide
+            if ws:
+                d.tags.add("index")
+                return ("idx", rng.choice(ws), self.expr(depth - 1, dom))
         if r < 0.96:
             d.tags.add("const-table-index")
             d.need_tbl = True
-            return ("tbl", self.expr(depth - 1, bias))
-        return self.leaf(bias)
+            return ("tbl", self.expr(depth - 1, dom))
+        return self.leaf(dom)
 
-    def rhs_for(self, dst_dom):
-        """right-hand side; mostly in the destination's domain so that both verdicts occur"""
-        rng = self.rng
-        bias = dst_dom if dst_dom is not None else rng.choice(self.doms)
-        if rng.random() < 0.25:
-            bias = rng.choice(self.doms)
-        pure = rng.random() < 0.45
-        if pure:
-            return self.pure_expr(rng.choice([0, 1, 2, 2, 3]), bias)
-        return self.expr(rng.choice([0, 1, 2, 2, 3]), bias)
-
-    def pure_expr(self, depth, dom):
-        """expression whose leaves are all in `dom` or constants"""
-        save = self.readable
-        pool = [i for i in save if self.d.sigs[i]["dom"] == dom]
-        wsave = self.wide
-        self.wide = [i for i in wsave if self.d.sigs[i]["dom"] == dom]
-        if pool:
-            self.readable = pool
-        try:
-            return self.expr(depth, dom)
-        finally:
-            self.readable = save
-            self.wide = wsave
-
-    # --- statements
-    def assign_stmt(self, dsts_out, in_ff, dom_hint=None):
-        rng, d = self.rng, self.d
-        r = rng.random()
-        if r < 0.08 and not in_ff:
-            dst = self.new_dst(kind="arr", allow_unann=False, dom=dom_hint or "any")
-            dsts_out.append(dst)
-            d.tags.add("array-literal")
-            dd = d.sigs[dst]["dom"]
-            return ("assign", [(dst, None)], [self.rhs_for(dd), self.rhs_for(dd) if rng.random() < 0.6 else ("const", "1'b0")], "arr")
-        if r < 0.16 and not in_ff:
-            dst = self.new_dst(kind="st", allow_unann=False, dom=dom_hint or "any")
-            dsts_out.append(dst)
-            d.tags.add("struct-constructor")
-            d.need_struct = True
-            dd = d.sigs[dst]["dom"]
-            return ("assign", [(dst, None)], [self.rhs_for(dd), self.rhs_for(dd) if rng.random() < 0.6 else ("const", "1'b1")], "struct")
-        if r < 0.26:
-            a = self.new_dst(kind=rng.choice(["out", "var"]), allow_unann=False, dom=dom_hint or "any")
-            b = self.new_dst(kind=rng.choice(["out", "var"]), allow_unann=False,
-                             dom=d.sigs[a]["dom"] if rng.random() < 0.7 else "any")
-            dsts_out += [a, b]
-            d.tags.add("concat-lhs")
-            rhs = ("cat", [self.rhs_for(d.sigs[a]["dom"]), self.rhs_for(d.sigs[b]["dom"])])
-            # the RHS is a 2-bit concatenation here, not reduced
-            return ("assign", [(a, None), (b, None)], ("cat2", rhs[1]), "concat")
-        if r < 0.36:
-            dst = self.new_dst(kind="wout", allow_unann=False, dom=dom_hint or "any")
-            dsts_out.append(dst)
-            d.tags.add("lhs-select")
-            dd = d.sigs[dst]["dom"]
-            ix = self.pure_expr(rng.choice([0, 1]), dd) if rng.random() < 0.6 else self.expr(rng.choice([0, 1]), dd)
-            return ("assign", [(dst, ix)], self.rhs_for(dd), "scalar")
-        dst = self.new_dst(dom=dom_hint or "any")
-        dsts_out.append(dst)
-        return ("assign", [(dst, None)], self.rhs_for(d.sigs[dst]["dom"]), "scalar")
+    def rhs_for(self, dst):
+        return self.expr(self.rng.choice([0, 1, 1, 2, 2, 3]), self.ddom(dst))
 
     def cond_for(self, dom):
         """statement condition; never a compile-time constant (the converter drops dead branches)"""
         rng = self.rng
         for _ in range(20):
-            if rng.random() < 0.7 and dom is not None:
-                e = self.pure_expr(rng.choice([0, 0, 1]), dom)
-            else:
-                e = self.expr(rng.choice([0, 0, 1]), dom)
+            e = self.expr(rng.choice([0, 0, 1]), dom)
             if "SSig" in self.d.expr_coq(e):
                 return e
-        return ("sig", rng.choice(self.readable))
+        p = self.pool(dom) or self.readable
+        return ("sig", rng.choice(p))
 
-    def reassign(self, dst, in_ff):
-        """another assignment to an already created destination (used in branches)"""
-        d = self.d
-        return ("assign", [(dst, None)], self.rhs_for(d.sigs[dst]["dom"]), "scalar")
+    # --- statements
+    def assign_stmt(self, dsts_out, in_ff):
+        rng, d = self.rng, self.d
+        r = rng.random()
+        if r < 0.08 and not in_ff:
+            dst = self.new_dst(kind="arr", allow_unann=False)
+            dsts_out.append(dst)
+            d.tags.add("array-literal")
+            return ("assign", [(dst, None)], [self.rhs_for(dst), self.rhs_for(dst) if rng.random() < 0.6 else ("const", "1'b0")], "arr")
+        if r < 0.16 and not in_ff:
+            dst = self.new_dst(kind="st", allow_unann=False)
+            dsts_out.append(dst)
+            d.tags.add("struct-constructor")
+            d.need_struct = True
+            return ("assign", [(dst, None)], [self.rhs_for(dst), self.rhs_for(dst) if rng.random() < 0.6 else ("const", "1'b1")], "struct")
+        if r < 0.26:
+            a = self.new_dst(kind=rng.choice(["out", "var"]), allow_unann=False)
+            b = self.new_dst(kind=rng.choice(["out", "var"]), allow_unann=False)
+            dsts_out += [a, b]
+            d.tags.add("concat-lhs")
+            return ("assign", [(a, None), (b, None)], ("cat2", [self.rhs_for(a), self.rhs_for(b)]), "concat")
+        if r < 0.36:
+            dst = self.new_dst(kind="wout", allow_unann=False)
+            dsts_out.append(dst)
+            d.tags.add("lhs-select")
+            ix = self.expr(rng.choice([0, 1]), self.ddom(dst))
+            return ("assign", [(dst, ix)], self.rhs_for(dst), "scalar")
+        dst = self.new_dst()
+        dsts_out.append(dst)
+        return ("assign", [(dst, None)], self.rhs_for(dst), "scalar")
 
-    def block(self, depth, in_ff, dsts, dom):
+    def reassign(self, dst):
+        return ("assign", [(dst, None)], self.rhs_for(dst), "scalar")
+
+    def block(self, depth, in_ff, dsts, may_be_empty=False):
         """statements over the scalar destinations `dsts`"""
         rng, d = self.rng, self.d
         out = []
+        if may_be_empty and rng.random() < 0.2:
+            d.tags.add("empty-branch")
+            return out
         for dst in dsts:
+            dom = self.ddom(dst)
             r = rng.random()
             if depth <= 0 or r < 0.35:
-                out.append(self.reassign(dst, in_ff))
+                out.append(self.reassign(dst))
             elif r < 0.60:
                 d.tags.add("if")
                 nel = rng.choice([0, 0, 1, 2])
                 if nel:
                     d.tags.add("else-if")
-                els = self.block(depth - 1, in_ff, [dst], dom) if (rng.random() < 0.7 or not in_ff) else None
-                out.append(("if", self.cond_for(dom), self.block(depth - 1, in_ff, [dst], dom),
-                            [(self.cond_for(dom), self.block(depth - 1, in_ff, [dst], dom)) for _ in range(nel)], els))
+                els = self.block(depth - 1, in_ff, [dst]) if (rng.random() < 0.7 or not in_ff) else None
+                out.append(("if", self.cond_for(dom), self.block(depth - 1, in_ff, [dst], True),
+                            [(self.cond_for(dom), self.block(depth - 1, in_ff, [dst], True)) for _ in range(nel)], els))
             elif r < 0.80:
                 d.tags.add("case")
-                out.append(("case", self.cond_for(dom), [self.block(depth - 1, in_ff, [dst], dom) for _ in range(2)]))
+                out.append(("case", self.cond_for(dom), [self.block(depth - 1, in_ff, [dst]) for _ in range(2)]))
             else:
                 d.tags.add("switch")
                 n = rng.choice([1, 2, 2])
-                out.append(("switch", [(self.cond_for(dom), self.block(depth - 1, in_ff, [dst], dom)) for _ in range(n)],
-                            self.block(depth - 1, in_ff, [dst], dom)))
+                out.append(("switch", [(self.cond_for(dom), self.block(depth - 1, in_ff, [dst], True)) for _ in range(n)],
+                            self.block(depth - 1, in_ff, [dst])))
         return out
 
     # --- items
@@ -676,9 +666,13 @@ class CdcGen:
         guard = rng.random() < 0.2
         if guard:
             d.tags.add("unsafe-cdc")
+        self.idom = rng.choice(self.doms)
+        self.mode = rng.choice(["clean"] * 9 + ["single"] * 8 + ["wild"] * 3)
+        if len(self.doms) == 1 and self.mode == "single" and not any(self.eff.get(i) is None for i in self.readable):
+            self.mode = "clean"
         r = rng.random()
         made = []
-        it = None
+        infer = False       # does this item give its unannotated destinations the item's domain?
         if r < 0.30:
             s = self.assign_stmt(made, False)
             d.tags.add("assign-decl")
@@ -687,63 +681,101 @@ class CdcGen:
             dst = self.new_dst(kind="let")
             made.append(dst)
             d.tags.add("let-decl")
-            it = ("comb", guard, [("assign", [(dst, None)], self.rhs_for(d.sigs[dst]["dom"]), "scalar")], "let")
+            it = ("comb", guard, [("assign", [(dst, None)], self.rhs_for(dst), "scalar")], "let")
         elif r < 0.58:
             d.tags.add("always_comb")
-            dom = rng.choice(self.doms)
             n = rng.choice([1, 1, 2])
-            dsts = [self.new_dst(dom=dom if rng.random() < 0.7 else "any", kind=rng.choice(["out", "var"])) for _ in range(n)]
+            dsts = [self.new_dst(kind=rng.choice(["out", "var"])) for _ in range(n)]
             made += dsts
             body = []
             if rng.random() < 0.25:
                 # function call statement with an output argument (annotated destination)
-                o = self.new_dst(kind="var", allow_unann=False, dom=dom if rng.random() < 0.7 else "any")
+                o = self.new_dst(kind="var", allow_unann=False)
                 made.append(o)
                 d.need_outfn = True
                 d.tags.add("call-output-arg")
                 k = rng.choice([1, 2])
-                body.append(("call", [self.rhs_for(d.sigs[o]["dom"]) for _ in range(k)], [o]))
+                body.append(("call", [self.rhs_for(o) for _ in range(k)], [o]))
             # defaults first so that no branch leaves a destination unassigned
             for x in dsts:
                 body.append(("assign", [(x, None)], ("const", "1'b0"), "scalar"))
-            body += self.block(rng.choice([0, 1, 2]), False, dsts, dom)
+            body += self.block(rng.choice([0, 1, 2]), False, dsts)
             it = ("comb", guard, body, "always")
         elif r < 0.78:
             d.tags.add("always_ff")
-            dom = rng.choice(self.doms)
-            clk = self.clk[dom]
+            clk = self.clk[self.idom]
             rst = None
             if self.rst and rng.random() < 0.5:
-                rd = dom if rng.random() < 0.8 else rng.choice(list(self.rst))
+                rd = self.idom
+                if self.mode == "wild" and rng.random() < 0.3:
+                    rd = rng.choice(list(self.rst))
                 if rd in self.rst:
                     rst = self.rst[rd]
                     d.tags.add("ff-reset")
             n = rng.choice([1, 1, 2])
-            dsts = [self.new_dst(dom=dom if rng.random() < 0.75 else "any", kind=rng.choice(["out", "var"])) for _ in range(n)]
+            dsts = [self.new_dst(kind=rng.choice(["out", "var"])) for _ in range(n)]
             made += dsts
-            body = self.block(rng.choice([0, 1, 2]), True, dsts, dom)
+            body = self.block(rng.choice([0, 1, 2]), True, dsts)
             it = ("ff", guard, clk, rst, body)
+            infer = True
         elif r < 0.93:
             it = self.inst_item(guard, made)
         else:
             d.tags.add("sv-instance")
             n = rng.choice([2, 3])
-            dom = rng.choice(self.doms)
             sigs = []
             for _ in range(n):
-                if rng.random() < 0.6:
-                    o = self.new_dst(kind="var", allow_unann=False, dom=dom if rng.random() < 0.75 else "any")
+                p = [i for i in self.pool(self.idom) if d.sigs[i]["kind"] == "in"]
+                if rng.random() < 0.6 or not p:
+                    o = self.new_dst(kind="var", allow_unann=False)
                     made.append(o)
                     sigs.append(o)
                 else:
-                    same = [i for i in d.by_kind("in") if d.sigs[i]["dom"] == dom]
-                    sigs.append(rng.choice(same if same and rng.random() < 0.75 else d.by_kind("in")))
+                    sigs.append(rng.choice(p))
             it = ("sv", guard, sigs)
-        # a driven 1-bit destination becomes readable by later items
+        if self.mode == "single":
+            it2 = self.inject(it)
+            if it2 is not None:
+                it = it2
+                d.tags.add("single-foreign-read")
+        # a driven 1-bit destination becomes readable by later items; an unannotated one counts as
+        # the item's domain only when that is certain (clean always_ff: inferred from the clock)
         for m in made:
             if d.sigs[m]["kind"] in ("out", "var", "ifm", "let"):
+                if d.sigs[m]["dom"] is None:
+                    self.eff[m] = self.idom if (infer and self.mode == "clean") else "?"
                 self.readable.append(m)
         return it
+
+    # --- exactly one foreign read
+    def read_paths(self, node, path, out, it_kind):
+        if isinstance(node, tuple) and len(node) == 2 and node[0] == "sig" and isinstance(node[1], int):
+            out.append(path)
+            return
+        if isinstance(node, (tuple, list)):
+            if isinstance(node, tuple) and len(node) == 4 and node[2] == "out" and isinstance(node[0], str):
+                return      # instance output connection: a destination, not a read
+            for k, x in enumerate(node):
+                self.read_paths(x, path + [k], out, it_kind)
+
+    def replace_at(self, node, path, new):
+        if not path:
+            return new
+        k = path[0]
+        lst = list(node)
+        lst[k] = self.replace_at(node[k], path[1:], new)
+        return tuple(lst) if isinstance(node, tuple) else lst
+
+    def inject(self, it):
+        rng = self.rng
+        foreign = [i for i in self.readable if self.eff.get(i) not in (self.idom, "?")]
+        if not foreign:
+            return None
+        paths = []
+        self.read_paths(it, [], paths, it[0])
+        if not paths:
+            return None
+        return self.replace_at(it, rng.choice(paths), ("sig", rng.choice(foreign)))
 
     def inst_item(self, guard, made):
         rng, d = self.rng, self.d
@@ -755,30 +787,28 @@ class CdcGen:
         cname = "Child%d" % len(d.children)
         ports = []      # (port name, group, dir)
         conns = []
-        gdom = [rng.choice(self.doms) for _ in range(ngroups)]
+        gdom = [self.idom] + [rng.choice(self.doms) for _ in range(ngroups - 1)]
         for g in range(ngroups):
             nin = rng.choice([1, 2, 2, 3])
             for k in range(nin):
                 ports.append(("p%d_%d" % (g, k), g, "in"))
             for k in range(rng.choice([1, 1, 2])):
                 ports.append(("q%d_%d" % (g, k), g, "out"))
+        save = self.idom
         for (pn, g, di) in ports:
-            dom = gdom[g]
+            self.idom = gdom[g]
             if di == "in":
-                r = rng.random()
-                if r < 0.2:
+                if rng.random() < 0.2:
                     e = ("const", "1'b0")
                     d.tags.add("inst-const-connection")
-                elif r < 0.8:
-                    e = self.pure_expr(rng.choice([0, 0, 1, 2]), dom)
                 else:
-                    e = self.expr(rng.choice([0, 1]), dom)
+                    e = self.expr(rng.choice([0, 0, 1, 2]), gdom[g])
             else:
-                o = self.new_dst(kind=rng.choice(["out", "var"]), allow_unann=False,
-                                 dom=dom if rng.random() < 0.8 else "any")
+                o = self.new_dst(kind=rng.choice(["out", "var"]), allow_unann=False)
                 made.append(o)
                 e = ("sig", o)
             conns.append((pn, g, di, e))
+        self.idom = save
         if rng.random() < 0.5:
             rng.shuffle(conns)
             d.tags.add("inst-shuffled")
